@@ -4,7 +4,7 @@ from hypothesis import strategies as st
 
 from .. import gen, rl
 from ..core import SubCheck, Violation
-from ..oracle import LAYOUTS, layout, lib, jsonable, arrays_equal, py_sel, model_index
+from ..oracle import LAZY_CHOICES, LAYOUTS, layout, lib, jsonable, arrays_equal, py_sel, model_index
 from .c16 import build
 from .c05 import close
 
@@ -29,14 +29,24 @@ def dense_rows(case):
 
 
 def encode(case, rows):
+    """the encoded object; the arrays it was made from are the caller's and are overwritten right afterwards"""
     from npstructures import RunLength2dArray, RunLengthRaggedArray, RaggedArray
-    if case["kind"] == "2d":
-        return RunLength2dArray.from_array(layout(np.array(rows), case.get("layout", "C")))
-    if case.get("via") == "from_array" and len({len(r) for r in rows}) == 1:
-        return RunLengthRaggedArray.from_array(layout(np.array(rows), case.get("layout", "C")))
     from ..oracle import lazy_ra
+    if case["kind"] == "2d":
+        m = layout(np.array(rows), case.get("layout", "C"))
+        x = RunLength2dArray.from_array(m)
+        rl.scribble(m)
+        return x
+    if case.get("via") == "from_array" and len({len(r) for r in rows}) == 1:
+        m = layout(np.array(rows), case.get("layout", "C"))
+        x = RunLengthRaggedArray.from_array(m)
+        rl.scribble(m)
+        return x
     # "a ragged array with non-empty rows": freshly built or itself a pending selection
-    return RunLengthRaggedArray.from_ragged_array(lazy_ra(rows, case["dt"], case.get("src_lz", 0)) if "dt" in case else RaggedArray(rows))
+    src = lazy_ra(rows, case["dt"], case.get("src_lz", 0)) if "dt" in case else RaggedArray(rows)
+    x = RunLengthRaggedArray.from_ragged_array(src)
+    rl.scribble(src.ravel())
+    return x
 
 
 def torows(x):
@@ -485,7 +495,7 @@ def arr_st(draw, kinds=("2d", "rag"), min_rows=1):
     else:
         rows = [draw(row_st(dt, draw(st.integers(1, 9)))) for _ in range(nr)]
     return {"kind": kind, "dt": dt, "rows": rows, "via": draw(st.sampled_from(["from_ragged_array", "from_array"])),
-            "src_lz": draw(st.sampled_from([0, 0, 0, 1, 2, 3, 4, 5, 6])), "layout": draw(st.sampled_from(LAYOUTS))}
+            "src_lz": draw(st.sampled_from(LAZY_CHOICES)), "layout": draw(st.sampled_from(LAYOUTS))}
 
 
 RAW_SEL = st.one_of(
